@@ -8,13 +8,27 @@
 // `go test ./...` in this directory (fixtures under testdata/) and validated differentially
 // against the compiled Go code by validate/ (bin/validate-gofunc).
 //
-// usage: gofunc <repo root> <module path> <pkgdir> <out.v> <prefix> Func [Type.Method | import/path:Func | F#prefix | F#extern ...]
+// usage: gofunc <repo root> <module path> <pkgdir> <out.v> <prefix> Func [Type.Method | import/path:Func | F#prefix | F#extern | F#externw | F@T ...]
 //        gofunc -scan <repo root> <module path> <pkgdir>      (list what is translatable)
 
 /* ------------------------------------------------------------------------------ RULES
 Values.   Every integer type (intN, uintN, int, uint, uintptr; word size = 64 bit) is Z;
-  bool is bool; a slice of integers ([]uintN, []intN, named types over them) and a string
-  (its bytes) are `list Z`.  Nothing else has a representation.
+  bool is bool; a slice of integers ([]uintN, []intN, named types over them), an array of
+  integers ([N]uintN: a list of length N; `var a [N]T` is N zeros; arrays are values: a copy
+  is a copy), a string (its bytes) and a bytes.Buffer (its unread bytes, see "bytes.Buffer")
+  are `list Z`.  A nil slice is the empty list: nil and empty slices are NOT told apart
+  (comparing a slice with nil is not translatable).
+  error is Z: 0 = nil; 1 = an error made on the spot (fmt.Errorf / errors.New with a constant
+  format; the other arguments are evaluated); a package-level error variable = a code derived
+  from its qualified name (crc32, stable from run to run; the table `go_err_<pkg>_<Name>` is
+  emitted at the head of the output).  ASSUMED: distinct error variables hold distinct,
+  non-nil errors and are never reassigned.  Errors are only compared with nil or with an
+  error variable.  An error returned by an external function is whatever Z it is given as.
+  interface{} is Z too: an opaque token, 0 = nil (ASSUMED: distinct values, distinct tokens);
+  tokens can be stored, passed on, returned and compared with nil, nothing else; a slice of
+  interface{} is a `list Z` of tokens (if a function only takes its len(): the parameter
+  n_<path>, as before).
+  Nothing else has a representation.
   Inputs are ASSUMED to lie in the range of their Go types (nothing is wrapped on entry);
   every operation keeps its result in range:
     conversion T(e), + - * / % << unary - ^   of unsigned type uintN:  (e) mod 2^N
@@ -31,36 +45,84 @@ Values.   Every integer type (intN, uintN, int, uint, uintptr; word size = 64 bi
     len(s)                 go_len s (Z.of_nat (length s))
     s[i]                   go_index s i: Panic unless 0 <= i < len s
     s[i:]                  go_slice_from s i: Panic unless 0 <= i <= len s
-                           (s[:j], s[i:j] depend on cap(s): not translatable)
+    s[i:j], s[:j]          go_slice s i j: Panic unless 0 <= i <= j <= len s.  In Go j may
+                           exceed len s up to cap s, which a list does not record:
+                           ASSUMED: no slice is resliced beyond its length (such a reslice is
+                           Panic here, not in Go; the validator gives slices spare capacity
+                           to find code that relies on it).  s[:] is s.  s[i:j:k]: no.
+    make([]T, n)           go_make n: Panic when n < 0, else n zeros (make with a capacity: no;
+                           running out of memory is not modelled)
+    []byte(s), string(b), T(s) for slice types: the same list
     min, max               Z.min, Z.max
 Parameters.  A parameter (or receiver) of a representable type is one parameter of the
   definition, v_<name>.  A parameter of struct / pointer-to-struct type contributes one
   parameter per field path that the body reads, v_<name>_<field>[_<field>...], in order of
   first use (pointers on the path are ASSUMED non-nil).  len(p.f) of a slice of
-  non-integers is the parameter n_<name>_<field> (ASSUMED >= 0).  Fields, slices and
-  package-level variables cannot be written (fields of parameters can: see "Fields written"),
-  so a field the function does not assign is constant during the call.
-Fields written.  A function may assign fields of its parameters (p.f = e, p.f op= e, p.f++):
-  the field is a parameter as above and at the same time a variable of the definition; the
-  final values of all fields the function assigns are appended to its results (a function
-  without results then has just these).  A function that writes fields cannot be called
-  from translated code.  Slice elements, maps and pointers still cannot be written.
+  non-integers is the parameter n_<name>_<field> (ASSUMED >= 0).  Package-level variables cannot be written; what can is
+  described under "Memory written": a field or list the function does not write is constant
+  during the call.
+Memory written.  A function may assign fields of its pointer parameters (p.f = e, p.f op= e,
+  p.f++; not of a struct passed by value) and elements of lists: s[i] = e, s[i] op= e, s[i]++,
+  a, b = ... with elements on the left (operands and right-hand sides first, then the
+  assignments left to right, as in Go), copy(dst, src) (as a statement or `n := copy(..)`),
+  where the list is a local slice or array, a slice parameter, or a field; s[i] = e is
+  go_update s i e: Panic unless 0 <= i < len s.  The location is a variable of the
+  definition; the final values of every field assigned and of every slice PARAMETER written
+  through are appended to the results, in order of first write (a function without results
+  then has just these).
+  A call of a translated function that writes memory may only be a statement of its own, the
+  only right-hand side of an assignment, a returned value, or an `if` condition (possibly under
+  `!`); a slice argument it writes must be a list as above or a window x[i:], x[i:j], x[:j],
+  x[:] of one: the new content is spliced back (go_splice).
+  ALIASING.  A slice is translated as the list of its elements, which is sound only while no
+  two names stand for overlapping memory that is written.  Therefore:
+    - ASSUMED: distinct slice parameters / fields of the function do not overlap each other
+      (a caller in translated code that passes the same list for two arguments of which one
+      is written is refused);
+    - a local slice variable or parameter that is written through may be assigned at most
+      once, at its declaration (a parameter: never);
+    - whenever a slice variable or field gets its value from another slice, array or field
+      (x := y, x = y[i:j], x := T(y), x := f(y)), every write through x or y must come textually
+      before that statement, and the statement must not be inside a loop;
+    otherwise the function is NOT TRANSLATABLE.
+Slices of structs.  For a parameter or field q of type []*S or []S (S a struct), q[i].f is
+  element i of the list v_<q>_f: one `list Z` per integer / bool field of S that is used, all of
+  the length of q (len(q) is the parameter n_<q>; ASSUMED equal to their lengths).  ASSUMED:
+  the elements are non-nil and pairwise distinct pointers.  q[i].f = e updates that list;
+  q[i] = q[j] and q[i], q[j] = q[j], q[i] move all representable fields of the element (the
+  others travel with it unseen).  An element cannot be copied to a variable.
+Interface parameters.  "F@T" translates F with each parameter of interface type that T (or *T)
+  implements standing for a value of type T: a method call on it is the call of T's method,
+  and passing it on calls the instance "G@T" of G.  The definition is <prefix><pkg>_F_T
+  (container/heap:up@timerHeap -> go_heap_up_timerHeap).  A call of F from translated code
+  with an argument of type T reaches this instance.
+bytes.Buffer.  Not translated from its source: a value of that type (also as an embedded
+  field) is the list of its unread bytes, and Write, WriteByte, Read, ReadByte, Bytes, Len are
+  go_buf_write, go_buf_write_byte, go_buf_read, go_buf_read_byte, go_buf_bytes, go_len of
+  coq/Lib/GoSem.v, written after the documentation of the type (Read of an empty buffer
+  into a non-empty p: (0, io.EOF); otherwise min(len p, unread) bytes, nil).  ASSUMED: the
+  slice Bytes() returns is only read.
 Skipped calls.  The statements mu.Lock() / mu.Unlock() / mu.RLock() / mu.RUnlock() on a
   sync.Mutex / sync.RWMutex, `defer mu.Unlock()` / `defer mu.RUnlock()`, and log.Printf /
   log.Print / log.Println with constant or plain-name arguments are dropped: the semantics is
   that of one goroutine, log output is not modelled.
-External functions.  "F#extern" (given before its callers) declares the package-level function
-  F, with integer/bool parameters and results, external: it is not translated and every call
-  site of it (outside loops only) becomes a parameter x_F_<k> of the calling definition -
-  "what the k-th call of F in this function returned"; the arguments are still evaluated.
-  This is how a clock enters.  ASSUMED: F does not touch the fields its callers read or write.
-  Definitions with such parameters are not validated differentially.
+External functions.  "F#extern", "T.M#extern", "import/path:T.M#extern" (given before the
+  callers; T may be an interface) declare a function or method external: it is not translated
+  and every call site of it (outside loops only) becomes parameters x_F_<k>[_<i>] of the
+  calling definition - "what the k-th call of F in this function returned" (results of any
+  representable type).  Arguments of a representable type are still evaluated; other
+  arguments and the receiver must be plain names.  "#externw" in place of "#extern": the
+  function also writes its slice arguments; their new contents are parameters x_F_<k>_w<i>
+  (ASSUMED of the length of the argument) and are spliced back.  This is how a clock, a
+  reader (io:ReadFull#externw) or a marshaller enters.  ASSUMED: F touches nothing else the
+  callers read or write.  Definitions with such parameters are not validated differentially.
 Statements.  x := e, var x T [= e], x = e, x op= e, x++, x--, a, b = e1, e2 (parallel),
   a, b := f(...), _ = e (evaluated for its panics), if/else if/else (with init), switch on
   an integer/bool tag or tagless (no fallthrough; case expressions must not be able to
   panic), for cond {}, for init; cond; post {}, for {}, for i, v := range s (s a slice of
-  integers), break, continue, return (also bare, with named results), panic(...), blocks.
-  Only local variables can be assigned.  Each Go variable gets one Gallina name (a second
+  integers), break, continue, return (also bare, with named results), panic(...), blocks, a
+  call as a statement (for what it writes and its panics).
+  Apart from "Memory written", only local variables can be assigned.  Each Go variable gets one Gallina name (a second
   variable of the same name: v_x_2); an assignment is a `let` that shadows it.
   An `if` whose branches contain no return/break/continue/panic is an expression whose value
   is the tuple of the outer variables its branches assign; it is bound (let / bind) in front
@@ -99,7 +161,7 @@ Fragments.  "F#prefix" translates the longest translatable PREFIX of the body of
   source changes so that k changes, the tuple changes shape and dependent proofs stop
   compiling.  A fragment cannot be called and is not validated differentially.
 Everything else (floats, maps, channels, pointers, closures, defer, go, select, goto,
-  labels, append/make/copy, writes to slice elements, calls outside the set, other defers,
+  labels, append, cap, unsafe, type assertions, calls outside the set, other defers,
   generic or variadic functions, range over strings/maps/channels/integers) makes the
   function `NOT TRANSLATABLE: reason`: a comment in the output, so a proof that needs the
   definition stops compiling.
